@@ -1,0 +1,13 @@
+// Copyright 2021-present The Atlas Authors. All rights reserved.
+// This source code is licensed under the Apache 2.0 license found
+// in the LICENSE file in the root directory of this source tree.
+
+//go:build !verif
+
+package sqlite
+
+import "time"
+
+// simNow is the clock the lock lease is stamped with and checked against; the simulator owns
+// it in builds with the "verif" tag. It is the wall clock in regular builds.
+func simNow() time.Time { return time.Now() }
